@@ -17,7 +17,7 @@ META = dict(
         quick="all pairs of graphs (connected or not) on <=3 nodes, plus equal-size 4-node pairs with <=3 bonds; element "
               "in {C,N}, charge in {0,1}, hcount in {0,1}, order in {1,2}; second graph under the same ids and under "
               "shifted ids with reversed insertion order; WL filter on/off; engines with node_attrs [element,charge] and "
-              "[element] querying the same objects in both orders; induced and monomorphism mode, use_filter on/off; streams of short-lived graph pairs under eager address recycling; WL filter on/off and engine histories also for five-atom hosts (5-ring, branched tree [thorough: 5-chain]) against 3- and 4-atom chain [thorough: star] patterns, and for the two pairs of connected five-atom graphs with equal degree sequences, elements only; graph_morphism.find_graph_isomorphism on all 3-atom pairs and on 4/5-atom graphs against themselves plus one bond under the same numbering, invariant pre-check on/off, both argument orders",
+              "[element] querying the same objects in both orders; induced and monomorphism mode, use_filter on/off; streams of short-lived graph pairs under eager address recycling; WL filter on/off and engine histories also for five-atom hosts (5-ring, branched tree [thorough: 5-chain]) against 3- and 4-atom chain [thorough: star] patterns, and for the two pairs of connected five-atom graphs with equal degree sequences, elements only; graph_morphism.find_graph_isomorphism on all 3-atom pairs and on 4/5-atom graphs against themselves plus one bond under the same numbering, invariant pre-check on/off, both argument orders Additionally a few two-/three-atom shards with charges in {-2,-1}: different labels whose hash() values coincide in CPython.",
         thorough="all pairs on <=4 nodes (<=4 bonds)",
     ),
     outside=["graphs > 4 nodes apart from the listed five-atom hosts", "the optional 'mod' rule backend (not installed)", "MultiGraph/DiGraph inputs"],
@@ -57,7 +57,7 @@ def edge_eq(X, Y):
     return lambda e, f: EQ(X[e[0]][e[1]].get("order"), Y[f[0]][f[1]].get("order"))
 
 
-DOMS = dict(full=((0, 1), (0, 1)), nocharge=((0, 1), (0,)), noh=((0,), (0, 1)), bare=((0,), (0,)))
+DOMS = dict(full=((0, 1), (0, 1)), nocharge=((0, 1), (0,)), noh=((0,), (0, 1)), bare=((0,), (0,)), neg=((0,), (-2, -1)))
 
 
 def build_pair(E, an, aedges, bn, bedges, shift, dom="full"):
@@ -316,6 +316,10 @@ def shards(tier, seed):
             sh.append(dict(h="filters", params=dict(an=5, aedges=cls[0], bn=5, bedges=cls[1], shift=True, dom="bare")))
             if not q:
                 sh.append(dict(h="filters", params=dict(an=5, aedges=cls[1], bn=5, bedges=cls[0], shift=False, dom="bare")))
+    # charges -1 / -2: different labels whose hash() values coincide in CPython (the WL filter hashes labels)
+    for n_, es_ in ((2, [[1, 2]]), (3, [[1, 2], [2, 3]])):
+        sh.append(dict(h="iso", params=dict(an=n_, aedges=es_, bn=n_, bedges=es_, shift=True, dom="neg")))
+        sh.append(dict(h="filters", params=dict(an=n_, aedges=es_, bn=n_, bedges=es_, shift=True, dom="neg")))
     # graph_morphism: equal-size pairs; the second graph = the first plus one more bond under the same numbering
     three = [(3, es) for es in all_shapes(3)]
     for (an, ae), (bn, be) in itertools.product(three, three):
